@@ -57,6 +57,33 @@ mod harnesses {
         let c: u8 = kani::any();
         assert!(c.is_ascii_whitespace() == is_ws(c));
     }
+    /// prelude/std_extra2.rs byte classification and case conversion contracts, all 256 values. complete.
+    #[kani::proof]
+    fn std_u8_ascii_family() {
+        let c: u8 = kani::any();
+        let lower = if (0x41..=0x5a).contains(&c) { c + 0x20 } else { c };
+        let upper = if (0x61..=0x7a).contains(&c) { c - 0x20 } else { c };
+        assert!(c.to_ascii_lowercase() == lower && c.to_ascii_uppercase() == upper);
+        assert!(c.is_ascii_digit() == (0x30..=0x39).contains(&c));
+        assert!(c.is_ascii_hexdigit() == ((0x30..=0x39).contains(&c) || (0x41..=0x46).contains(&c) || (0x61..=0x66).contains(&c)));
+        assert!(c.is_ascii_uppercase() == (0x41..=0x5a).contains(&c) && c.is_ascii_lowercase() == (0x61..=0x7a).contains(&c));
+        assert!(c.is_ascii_alphabetic() == ((0x41..=0x5a).contains(&c) || (0x61..=0x7a).contains(&c)) && c.is_ascii() == (c < 0x80));
+    }
+    /// `<[u8]>::eq_ignore_ascii_case` contract on slices of length <= 3. BOUNDED.
+    #[kani::proof]
+    #[kani::unwind(5)]
+    fn std_eq_ignore_ascii_case_bounded() {
+        let a: [u8; 3] = kani::any();
+        let b: [u8; 3] = kani::any();
+        let n: usize = kani::any();
+        let m: usize = kani::any();
+        kani::assume(n <= 3 && m <= 3);
+        let r = a[..n].eq_ignore_ascii_case(&b[..m]);
+        let lc = |c: u8| if (0x41..=0x5a).contains(&c) { c + 0x20 } else { c };
+        let mut eq = n == m;
+        if eq { let mut i = 0; while i < n { if lc(a[i]) != lc(b[i]) { eq = false; } i += 1; } }
+        assert!(r == eq);
+    }
     /// compiled `trim_ascii` (fidelity check of the code Verus verified in unit trim after desugaring its slice patterns) on all inputs of
     /// length <= 4. BOUNDED.
     #[kani::proof]
